@@ -7,7 +7,7 @@ import numpy as np
 from .. import sym, shim, stubs
 from .families import FAMILIES, SHIPPED, subsets, declare_params
 from .c05 import expected
-from . import c08
+from . import c08, c12
 
 PROPERTY = "C11"
 FUNCTIONS = [
@@ -141,6 +141,16 @@ def obligations(tier):
             for w in (("quadratic",) if tier == "quick" else (None, "linear", "quadratic")):
                 yield ("lsq_fixed", h_lsq_fixed_delta,
                        {"fixed": "+".join(S), "method": method, "weights": w, "n": nl}, {})
+    # history: a fit with fixed parameters must not leak into the next fit of another instance
+    for fname, fam in FAMILIES.items():
+        if fname == "LogNormalNormFit":
+            continue
+        proper = [S for S in subsets(fam.params) if len(S) < len(fam.params)]
+        for SA in proper:
+            for SB in proper:
+                if SA and SA != SB and (tier == "thorough" or len(SB) <= 1):
+                    yield ("sequence", c12.h_sequence,
+                           {"family": fname, "fixedA": "+".join(SA), "fixedB": "+".join(SB), "n": 3}, {})
     # conditional distributions: a fixed parameter has the same value for every conditioning value (C08 harness)
     for fname in SHIPPED:
         fam = FAMILIES[fname]
